@@ -60,6 +60,9 @@ def shards(tier):
         for op in dfbfs.menu(M, seen):
             if op["op"] in dfbfs.INPLACE:
                 out.append({"part": "bfs", "init": init, "prefix": [op], "depth": 2 if not big else 3})
+    # width ladder: many sort keys at once
+    for nk in ([6, 12] if not big else [6, 12, 40]):
+        out.append({"part": "manykeys", "nk": nk})
     # long periodic frames: sizes at which NumPy switches sorting algorithm (stability is size-dependent there)
     for kind in KINDS:
         for length in ([17, 40, 1025] if not big else [17, 40, 130, 300, 1025, 65537]):
@@ -168,6 +171,22 @@ def check_case(case, rec):
 
 
 def run_shard(shard, rec):
+    if shard["part"] == "manykeys":
+        nk = shard["nk"]
+        kinds = [KINDS[j % len(KINDS)] for j in range(nk)]
+        for rows in (0, 1, 5, 9):
+            for variant in range(4):
+                cols = []
+                for j, kind in enumerate(kinds):
+                    a = V.alphabet(kind, "key")
+                    # early keys tie a lot (few distinct values in a slow cycle), so later keys decide
+                    cols.append([f"k{j:02d}", kind, [a[((i * (variant + 1)) // (1 + (nk - j) // 2) + j) % len(a)] for i in range(rows)]])
+                cols += payload_cols(rows)
+                knames = [c[0] for c in cols[:nk]]
+                dirs = [[1] * nk, [-1] * nk, [1 if j % 2 else -1 for j in range(nk)], [-1 if j % 3 else 1 for j in range(nk)]]
+                check_case({"cols": cols, "keys": knames, "dirs": dirs}, rec)
+                check_case({"cols": cols, "keys": list(reversed(knames)), "dirs": dirs[2:]}, rec)
+        return
     if shard["part"] == "bfs":
         last = shard["depth"] - 1
         filt = lambda level, op: (op["op"] == "sort") if level == last else (op["op"] in dfbfs.INPLACE)
